@@ -256,6 +256,16 @@ fn vcls<T>(r: Result<T, VolatileMemoryError>, f: impl FnOnce(T) -> Out) -> Out {
 
 /// data written by operation number `tag`
 pub fn wdata(tag: u8, n: usize) -> Vec<u8> {
+    if tag & 0x80 != 0 {
+        // the data of operation `tag & 0x7f` again, except for its last one to three bytes
+        // (a rewrite that finds most of its bytes already in place)
+        let mut d = wdata(tag & 0x7f, n);
+        let k = (1 + (tag as usize) % 3).min(n);
+        for b in &mut d[n - k..] {
+            *b ^= 0x55;
+        }
+        return d;
+    }
     // (the high bits of the index are mixed in: long buffers have no period of 256)
     (0..n).map(|j| 0x80 | (tag.wrapping_mul(29).wrapping_add((j as u8).wrapping_mul(3)).wrapping_add(((j >> 8) as u8).wrapping_mul(11)) & 0x7f)).collect()
 }
@@ -1039,6 +1049,54 @@ fn reduced_writes(n: usize) -> Vec<Op> {
     v
 }
 
+/// Writes that are repeated with nearly the same data (see `wdata`): lengths above one word
+/// that are not a multiple of it, and whole words.
+fn rewrites(n: usize) -> Vec<Op> {
+    let mut v = Vec::new();
+    for off in [0usize, 1, 3, 8] {
+        for len in [9usize, 12, 13, 16, 17, 23, n.saturating_sub(off), 300] {
+            if off + 9 > n {
+                continue;
+            }
+            v.push(Op::Write { off, len, mis: 0 });
+            v.push(Op::Write { off, len, mis: 3 });
+            v.push(Op::WriteSlice { off, len: len.min(n - off), mis: 1 });
+            v.push(Op::ReadFrom { off, count: len });
+            v.push(Op::ReadExactFrom { off, count: len.min(n - off) });
+            v.push(Op::SliceCopyFrom { ty: Ty::U8, off, len: len.min(n - off), m: len });
+            v.push(Op::SliceCopyFrom { ty: Ty::U16, off, len: len.min(n - off), m: len / 2 });
+            v.push(Op::ArrCopyFrom { ty: Ty::U8, off, n: len.min(n - off), m: len });
+            v.push(Op::ArrCopyFrom { ty: Ty::U32, off, n: len.min(n - off) / 4, m: len / 4 });
+        }
+        if off + 16 <= n {
+            v.push(Op::WriteObj { ty: Ty::U128, off });
+            v.push(Op::RefStore { ty: Ty::U128, off });
+            v.push(Op::WriteObj { ty: Ty::A3, off });
+        }
+    }
+    let mut seen = HashSet::new();
+    v.retain(|o| seen.insert(*o));
+    v
+}
+
+/// write; the same write again with data that differs in its last bytes only; read back.
+fn rewrite_histories(ctx: &Ctx, what: &str, p: &Placed, init: &[u8]) -> u64 {
+    let n = p.len;
+    let mut t = 0u64;
+    for (wi, w) in rewrites(n).iter().enumerate() {
+        let tag = (wi % 100) as u8 + 1;
+        t += 1;
+        let Some(s1) = step(ctx, what, p, init, w, tag, &[]) else { continue };
+        for again in [tag | 0x80, tag] {
+            t += 2;
+            if let Some(s2) = step(ctx, what, p, &s1, w, again, &[*w]) {
+                step(ctx, what, p, &s2, &Op::Read { off: 0, len: n, mis: 0 }, 0, &[*w, *w]);
+            }
+        }
+    }
+    t
+}
+
 fn reduced_reads(n: usize) -> Vec<Op> {
     let mut v = Vec::new();
     for off in [0usize, 1, 3, 8, n.saturating_sub(5)] {
@@ -1114,6 +1172,9 @@ fn explore_container(ctx: &Ctx, what: &str, p: &Placed, thorough: bool, full_dep
             }
         }
     }
+    if n >= 12 {
+        t += rewrite_histories(ctx, what, p, &init);
+    }
     ctx.add_states(states.len() as u64);
     ctx.add_transitions(t);
     ctx.add_traces(t);
@@ -1121,7 +1182,7 @@ fn explore_container(ctx: &Ctx, what: &str, p: &Placed, thorough: bool, full_dep
 
 pub fn run(tier: Tier, replay: Option<String>) -> i32 {
     let ctx = crate::new_ctx("C04", tier, "model_checking", &replay);
-    ctx.set_rule("E1 on one container: depth 1 = the complete alphabet (every accessor route x every offset 0..=N+1 x every length/count 0..=N+2 plus values around isize::MAX/usize::MAX x 12 element types of 1..16 bytes x local buffers at every misalignment 0..7) from a labelled state; depth 2 = product (write route) x (read route) at aligned and unaligned positions with the state carried over; depth 3 = write, overlapping write, read. Containers: VolatileSlice of N in 0..=24 bytes at every address mod 8 (one copy ending at a PROT_NONE guard page), MmapRegion of 24 and 4099 bytes. After every transition the result, the complete container, a 64-byte frame around it, the caller's buffer and canaries around that buffer are compared with a Vec<u8> model. An MmapRegion of 140001 bytes: every buffer, stream and copy route with transfers of 2^16-1 .. 140001 bytes in one call (around 2^16 and 2^17, at offsets 0, 1, 3 and ending at the end), contents without a short period.");
+    ctx.set_rule("E1 on one container: depth 1 = the complete alphabet (every accessor route x every offset 0..=N+1 x every length/count 0..=N+2 plus values around isize::MAX/usize::MAX x 12 element types of 1..16 bytes x local buffers at every misalignment 0..7) from a labelled state; depth 2 = product (write route) x (read route) at aligned and unaligned positions with the state carried over; depth 3 = write, overlapping write, read, and write, the same write again with data that differs in its last one to three bytes only (or not at all), read. Containers: VolatileSlice of N in 0..=24 bytes at every address mod 8 (one copy ending at a PROT_NONE guard page), MmapRegion of 24 and 4099 bytes. After every transition the result, the complete container, a 64-byte frame around it, the caller's buffer and canaries around that buffer are compared with a Vec<u8> model. An MmapRegion of 140001 bytes: every buffer, stream and copy route with transfers of 2^16-1 .. 140001 bytes in one call (around 2^16 and 2^17, at offsets 0, 1, 3 and ending at the end), contents without a short period.");
     ctx.assume("stream forms that start exactly at the end of the container may return Ok(0) or an error; a failing exact stream form may or may not have moved a prefix");
     let thorough = tier.thorough();
     if let Some(r) = ctx.replay_of.clone() {
@@ -1189,6 +1250,7 @@ pub fn run(tier: Tier, replay: Option<String>) -> i32 {
                     t += 1;
                     step(ctx, "slice-large", &p, &init, op, (k % 97) as u8 + 1, &[]);
                 }
+                t += rewrite_histories(ctx, "slice-large", &p, &init);
                 ctx.add_transitions(t);
                 ctx.add_traces(t);
                 ctx.add_states(1);
